@@ -173,6 +173,8 @@ Proof.
     destruct src as [n|]; [|injection E as <- <-; split; [apply frame_refl|exact G]].
     destruct (look f (d ++ [c])) eqn:L; [injection E as <- <-; split; [apply frame_refl|exact G]|].
     injection E as <- <-. apply put_inside; [exact G|exact Hq|exact L|apply (Hsrc n eq_refl)].
+  - (* an ignored entry type *)
+    injection E as <- <-. split; [apply frame_refl|exact G].
 Qed.
 
 Theorem extract1_frame f e f' ok : good f -> extract1 f e = (f', ok) -> frame f f' /\ good f'.
@@ -197,9 +199,10 @@ Proof.
     destruct (finish_frame f1 (cur ++ rest) (lastc p) e _ f' ok G1 P Hsrc Ef) as [F2 G2].
     split; [eapply frame_trans; eassumption|exact G2]. }
   destruct (etyp e) eqn:T; try (apply General; exact E).
-  destruct rest as [|x r]; [apply General; exact E|].
-  destruct (mkdirs f cur ((x :: r) ++ [lastc p]) (dmode (emode e))) as [f1 ok1] eqn:M. injection E as <- <-.
-  apply (mkdirs_frame (dmode (emode e)) ((x :: r) ++ [lastc p]) f cur f1 ok1 G); [|exact M]. rewrite app_assoc. apply is_prefix_app. exact P.
+  - destruct rest as [|x r]; [apply General; exact E|].
+    destruct (mkdirs f cur ((x :: r) ++ [lastc p]) (dmode (emode e))) as [f1 ok1] eqn:M. injection E as <- <-.
+    apply (mkdirs_frame (dmode (emode e)) ((x :: r) ++ [lastc p]) f cur f1 ok1 G); [|exact M]. rewrite app_assoc. apply is_prefix_app. exact P.
+  - injection E as <- <-. split; [apply frame_refl|exact G].
 Qed.
 
 Theorem extract_frame : forall es f f' ok, good f -> extract f es = (f', ok) -> frame f f' /\ good f'.
